@@ -125,7 +125,7 @@ func init() {
 		deg := func(d int64) *int64 { return &d }
 
 		// ---- severityOrder: constant -> code -----------------------------------------------------------
-		sevCode := map[string]int64{}  // constant name -> code
+		sevCode := map[string]int64{}   // constant name -> code
 		codeName := map[string]string{} // severity string value -> constant name
 		if fd := findFunc(p, file, recv, "severityOrder"); fd == nil {
 			fail("severityOrder: function not found")
